@@ -320,7 +320,7 @@ fn short_cases() -> Vec<PoolCase> {
 }
 
 pub fn run_pool_level(ctx: Ctx) -> Report {
-    let n_random = ctx.tier.pick(200_000, 3_000_000);
+    let n_random = ctx.tier.pick(200_000, 9_000_000);
     run::run_sharded("C12", ctx.shards, move |shard, nshards, rep| {
         let mut rng = Rng::new(ctx.seed.wrapping_mul(131).wrapping_add(shard as u64) ^ 0xC12);
         let mut all = short_cases();
